@@ -1,7 +1,11 @@
 /* C12: bt_en_decode / bt_en_free / bt_dict_find (src/utils/bt_encode.c) on hostile bytes.
  * Bounded plain harness: buf of symbolic size <= VF_BT_MAX in an exact-size object, symbolic
- * content; recursion and loops fully unwound (unwinding assertions = termination within the
- * bound); allocations may fail.  Postconditions: contracts/bt_encode.h. */
+ * content (-DVF_BT_FLAT: no 'l'/'d' byte behind the first one, i.e. nesting depth <= 1);
+ * recursion and loops fully unwound (unwinding assertions = termination within the bound);
+ * allocations may fail.  Postconditions: contracts/bt_encode.h.
+ * The decode jobs give bt_en_free an empty body (goto-instrument --generate-function-body): the
+ * recursive free on every error path multiplies the symbolic execution by > 100 and is irrelevant
+ * for what bt_en_decode reads and writes; bt_en_free itself runs in the bt_encode.tree job. */
 #include "contracts/bt_encode.h"
 #include "src/utils/bt_encode.c"
 #include "stubs/libc_models.h"
@@ -21,6 +25,17 @@ void harness(void) {
 	VF_ASSUME(buf_size <= VF_BT_MAX && key_size <= 3);
 	VF_BT_BUF(buf_x, buf_size)
 	VF_EXACT4(key, key_size)
+#ifdef VF_BT_LEAF
+	/* stated bound of the leaf jobs: the document is a byte string, an integer or garbage */
+	VF_ASSUME(buf_size == 0 || (buf_x[0] != 'l' && buf_x[0] != 'd'));
+#endif
+#ifdef VF_BT_FLAT
+	/* stated bound of the flat jobs: nesting depth <= 1, i.e. no container inside a container */
+	for (size_t vf_k = 1; vf_k < VF_BT_MAX; vf_k ++) {
+		if (vf_k < buf_size)
+			VF_ASSUME(buf_x[vf_k] != 'l' && buf_x[vf_k] != 'd');
+	}
+#endif
 	uint8_t *buf = (nulls & 1) ? NULL : buf_x;
 	bt_en_node_p node = NULL, found = NULL;
 	size_t off = 0, *ret_off = (nulls & 2) ? NULL : &off;
